@@ -1,5 +1,5 @@
 """Property -> rules table.  Rules are functions (ctx, repo)."""
-from .rules import ndim, iface, wrappers, rng, mech, errmodels, popmodels, switch, copies, cursors, reduced, layout, noise, filters
+from .rules import ndim, iface, wrappers, rng, mech, errmodels, popmodels, switch, copies, cursors, reduced, layout, noise, filters, caches, problems
 
 PROPS = {}
 
@@ -94,7 +94,8 @@ TERM_ASSUME = COMMON_ASSUME + [
 
 prop('C03',
      [errmodels.r04_terms, popmodels.r05_2, iface.r02_7, switch.r03_5,
-      switch.r08_7, CUR_LL, CUR_HIER],
+      switch.r08_7, CUR_LL, CUR_HIER, layout.r07_1, layout.r05_3,
+      noise.r13_3, filters.r12_3],
      undecided=['mechanistic sensitivities (sundials)',
                 'finiteness of scores at run time'],
      assumptions=TERM_ASSUME,
@@ -122,7 +123,8 @@ prop('C05',
                  'chain rule through the class\'s own transform.')
 
 prop('C06',
-     [errmodels.r06_1, popmodels.r06_2, popmodels.r06_3],
+     [errmodels.r06_1, popmodels.r06_2, popmodels.r06_3, rng.r16_2,
+      reduced.r08_1, CUR_HIER],
      undecided=['distribution of numpy / scipy draws',
                 'quantiles and independence of actual samples'],
      assumptions=TERM_ASSUME + [
@@ -160,7 +162,8 @@ prop('C07',
 
 prop('C08',
      [reduced.r08_1, reduced.r08_2, reduced.r08_3, reduced.r08_4,
-      switch.r08_7, wrappers.r02_2, iface.r02_7, copies.r19_3],
+      caches.r08_5, switch.r08_7, wrappers.r02_2, iface.r02_7,
+      copies.r19_3],
      undecided=['value equality of evaluations', 'nan in released slots'],
      assumptions=COMMON_ASSUME,
      technique='def-use provenance of the parameter vector through the '
@@ -213,7 +216,7 @@ prop('C12',
 
 prop('C13',
      [layout.r13_1, noise.r13_3, layout.r02_3, CUR_FILTER, switch.r03_5,
-      iface.r02_6, iface.r02_7],
+      iface.r02_6, iface.r02_7, filters.r12_4],
      undecided=['numerical value of the posterior', 'ODE solution'],
      assumptions=TERM_ASSUME + ['numpy reshape/flatten are C-ordered'],
      technique='symbolic shape/layout interpretation of the filter '
@@ -232,7 +235,8 @@ prop('C13',
 
 prop('C17',
      [layout.r05_3, layout.r02_4, layout.r13_1, layout.r07_1,
-      wrappers.r02_2, reduced.r08_4, CUR_HIER, CUR_LL],
+      wrappers.r02_2, reduced.r08_4, caches.r08_5, switch.r08_7, CUR_HIER,
+      CUR_LL],
      undecided=['uniqueness of run-time names (string contents)',
                 'bounded enumeration of deeper compositions'],
      assumptions=COMMON_ASSUME + ['numpy reshape/flatten are C-ordered'],
@@ -248,8 +252,29 @@ prop('C17',
                  'noise] with the parsed layout; that wrappers keep no stale '
                  'count across set_n_ids.')
 
+prop('C14',
+     [problems.r14_1, problems.r14_2, problems.r14_3, problems.r14_4,
+      copies.r19_3, mech.r11_1],
+     undecided=['pandas dtype coercion', 'effect of unrelated rows beyond '
+                'the enumerated filters', 'numerical equality with the '
+                'hand-assembled posterior'],
+     assumptions=COMMON_ASSUME + [
+         'pandas boolean-mask / .loc / notnull / dropna row selection '
+         'semantics for the enumerated idioms'],
+     technique='row-filter provenance dataflow over the DataFrame idioms of '
+               'the controller; def-use and guard analysis of the regimen '
+               'hand-over',
+     explanation='Decides which rows of the dataset reach each sink: times '
+                 'and observations of an output (own ID, mapped observable, '
+                 'non-missing, same frame), covariate matrix entries (own '
+                 'ID and covariate, indexed by the loop counters in '
+                 'controller ID order), dose events (own ID, per-row values, '
+                 'fresh protocol per individual), and that every '
+                 'individual\'s regimen is set on the shared model before '
+                 'its likelihood copies it.')
+
 prop('C16',
-     [rng.r16_1, rng.r16_2, rng.r16_3, rng.r16_4, rng.r16_5],
+     [rng.r16_1, rng.r16_2, rng.r16_3, rng.r16_4, rng.r16_5, layout.r16_6],
      undecided=['statistical independence of streams from distinct seeds',
                 'bit-level reproducibility of numpy generators'],
      assumptions=COMMON_ASSUME + [
